@@ -27,7 +27,7 @@ EXPR_FORMS = [
     "true", "false", "nil", "null", "empty", "blank",
     "not a", "a and b", "a or b", "a == b", "a != b", "a <> b", "a < b", "a >= 1", "a contains 'x'", "x in items",
     "a and b or c", "not a and not b", "(a or b) and c", "a == empty", "a == blank",
-    "i => i.a", "(i, n) => n", "x => x", "items | map: i => i.a", "items | where: i => i.a == 1",
+    "i => i.a", "(i, n) => n", "x => x", "() => x", "(i) => i", "(i, n, z) => z", "(i,) => i", "i => ", "(i n) => i", "items | map: i => i.a", "items | where: i => i.a == 1",
     "items | sort: 'a' | first", "a, b", "a: 1", "x y", "-", "", "[1, 2]", "a.b.", "a[", "'unclosed", "1..3", "(1..", "=>",
     "x | nosuchfilter", "x | upcase: 1", "x | slice", "x | slice: 'a', {}", "x | date", "x | t: y: 1",
 ]
